@@ -47,7 +47,7 @@ def cross_process_probe(impl, rng, rounds, redup=True, model=None):
             shapes = [gen_small_shape(rng, 3) or ('a', 'b') for _ in burns]
             shapes = [s if not isinstance(s, str) else (s, 'k') for s in shapes]
             c0 = counter(impl)
-            back = pool.map(_burn_and_build, list(zip(burns, shapes)), chunksize=1)
+            back = pool.map_async(_burn_and_build, list(zip(burns, shapes)), chunksize=1).get(timeout=90)
             c1 = counter(impl)
             made = [b[0] for b in back]
             if model is not None:
